@@ -172,6 +172,7 @@ func main() {
 			}
 			lastCtx = ctx
 			run.Fn(ctx, r)
+			ctx.ErrorHygiene(r, *prop+".", *prop == "C02" || *prop == "C04")
 			r.Assumptions = append(r.Assumptions, ctx.AnchorNotes...)
 		}()
 		if rep == nil {
